@@ -207,3 +207,47 @@ def run(ctx, R):
 
     terminal(cur, "current_prolog_flag")
     terminal(setc, "set_prolog_flag")
+    unknown_flag_takes_effect(F, R)
+
+
+# who may raise existence_error(procedure, ..) without asking the `unknown` flag
+RAISES_UNDEFINED_DIRECTLY = {
+    "Machine::undefined_procedure": "the one place that reads flags.unknown: error raises, fail and warning fail",
+    "Machine::call_clause": "recorded observation: the `user` branch for a key missing from code_dir raises directly (its sibling execute_clause asks the flag); "
+                            "no Prolog goal was found that reaches it with the key missing (a call through user: creates the entry first)",
+}
+
+
+def unknown_flag_takes_effect(F, R):
+    """set_prolog_flag(unknown, fail|warning) "takes effect": a call of an undefined predicate then fails instead of
+    raising. Every way a call can discover that a predicate is undefined must end in Machine::undefined_procedure, which
+    reads the flag; throw_undefined_error, which builds the existence error, may be called from there only."""
+    tgt = [p for p in F.items if p.endswith("MachineState::throw_undefined_error")]
+    up = [p for p in F.items if p.endswith("Machine::undefined_procedure")]
+    if len(tgt) != 1 or len(up) != 1:
+        raise AnchorLost("throw_undefined_error / undefined_procedure (%d/%d)" % (len(tgt), len(up)))
+    callers = sorted({short(re.sub(r"(::\{closure#\d+\})+$", "", p)) for p, cs in F.calls.items() if any((c.get("resolved") or c.get("callee")) == tgt[0] for c in cs)})
+    if not callers:
+        raise AnchorLost("throw_undefined_error has no callers")
+    for c in callers:
+        if c in RAISES_UNDEFINED_DIRECTLY:
+            R.ob("C44:unknown:raises-existence-error-directly:%s:listed" % c, True, "listed: " + RAISES_UNDEFINED_DIRECTLY[c], F.where(tgt[0]))
+        else:
+            R.ob("C44:unknown:raises-existence-error-directly:%s" % c, False,
+                 "%s raises existence_error(procedure, ..) through throw_undefined_error without asking flags.unknown: with set_prolog_flag(unknown, fail) a call that "
+                 "ends there still raises instead of failing" % c, F.where(tgt[0]))
+    ub = F.hir(up[0])["body"]
+    reads = any(x["k"] == "Field" and x["name"] == "unknown" for x in walk(ub))
+    arms = [m for m in matches_in(ub, src=None) if any(x["k"] == "Field" and x["name"] == "unknown" for x in walk(m["scrut"]))]
+    kinds = sorted({(res_name(l) or "").rsplit("::", 1)[-1] for m in arms for a in m["arms"] for l in walk(a["pat"]) if isinstance(l, dict) and "Unknown::" in (res_name(l) or "")})
+    R.ob("C44:unknown:undefined_procedure-reads-the-flag", reads and kinds == ["Error", "Fail", "Warn"],
+         "undefined_procedure must dispatch on flags.unknown with one arm per value; found %s" % kinds, F.where(up[0]))
+    # the places that find a predicate undefined
+    n = 0
+    for name in ("try_call", "try_execute", "call_clause", "execute_clause"):
+        fn = F.find_impl("Machine", None, name)
+        cs = [r for _, r, _ in __import__("rules.core", fromlist=["hir_calls"]).hir_calls(F.hir(fn)["body"])]
+        n += sum(1 for r in cs if r == up[0])
+    R.ob("C44:unknown:every-lookup-miss-ends-in-undefined_procedure", n >= 5,
+         "try_call, try_execute, call_clause and execute_clause reach undefined_procedure from %d places; five are known (an Undefined index in both try_*, a key missing from a "
+         "module's code_dir in both *_clause, and from user's in execute_clause)" % n, F.where(up[0]))
